@@ -1,5 +1,6 @@
 import PqlModel.Props.C15
 import PqlModel.Props.C15Parse
+import PqlModel.Props.C16Semantics
 #print axioms Pql.C15.C15_count
 #print axioms Pql.C15.C15_join
 #print axioms Pql.C15.C15_scan_local
